@@ -184,6 +184,7 @@ pub fn run_scenario(sc: &MScenario, replay: Option<Vec<Decision>>, trace: bool) 
         probes,
         states,
         step_cap_hit,
+        switch_pairs: stats.switch_pairs.iter().copied().collect(),
     }
 }
 
